@@ -147,6 +147,7 @@ type history struct {
 	script  []string // replayable history: W rows / F / c lv / C / m full
 	sid     map[uint64]int
 	method  int32 // compaction method of the history
+	trend   bool  // most batches of the history write values that grow with time
 }
 
 func (h *history) genVal(col string) int64 {
@@ -173,6 +174,9 @@ func (h *history) writeBatch() {
 	n := 1 + r.Intn(3*h.seg)
 	late := r.Chance(25)
 	nullHeavy := r.Chance(30)
+	// values that grow with time: the minimum of a chunk then sits at its first row and the
+	// maximum at its last one, which is what the first()/last() statistics shortcut looks for
+	trend := h.trend && r.Chance(70)
 	var rows []engx.Row
 	s0 := r.Intn(h.nSeries)
 	for i := 0; i < n; i++ {
@@ -208,6 +212,11 @@ func (h *history) writeBatch() {
 			}
 			if r.Chance(p) {
 				v := h.genVal(col)
+				if trend && col == "fi" {
+					v = int64(3*t - 100)
+				} else if trend && col == "ff" {
+					v = int64(2*t - 50)
+				}
 				er.Fields[col] = codeToText(col, v)
 			}
 		}
@@ -1590,11 +1599,11 @@ func (h *history) checkpoint(nq int) {
 			cs := fnCols[f]
 			q = aggQuery{calls: []call{{f, cs[h.r.Intn(len(cs))]}}, lo: ch.min - h.r.Intn(2), hi: ch.max + h.r.Intn(2), grp: []string{"host", "-", "zone"}[h.r.Intn(3)], asc: !h.r.Chance(30), fill: "none"}
 			c.Count("query:statistics-probe")
-			if len(lay.empty) > 0 && i == 0 {
+			if len(lay.empty) > 0 {
 				// a column without a value in a chunk that lies inside the range: its stored record is
 				// in the initial state and must not contribute
 				e := lay.empty[h.r.Intn(len(lay.empty))]
-				fs := []string{"count", "min", "max", "first", "last"}
+				fs := []string{"min", "max", "min", "max", "count", "first", "last"}
 				if e.col == "fi" || e.col == "ff" {
 					fs = append(fs, "sum", "mean")
 				} else if e.col == "fs" {
@@ -1794,13 +1803,18 @@ func runReplay(c *hx.Ctx, path string) error {
 	if err != nil {
 		return err
 	}
+	return runScript(c, string(data), true)
+}
+
+// runScript runs a history given as text (the replay format): H / W / F / c / C / m / S / Q lines.
+func runScript(c *hx.Ctx, data string, verbose bool) error {
 	dir := engx.ScratchDir("c09r")
 	defer os.RemoveAll(dir)
 	var h *history
 	var lay *layout
 	var full map[int][]row
 	defer engine.VerifSetMaxRowsPerSegment(0)
-	for _, ln := range strings.Split(strings.ReplaceAll(string(data), " | ", "\n"), "\n") {
+	for _, ln := range strings.Split(strings.ReplaceAll(data, " | ", "\n"), "\n") {
 		ln = strings.TrimSpace(ln)
 		if ln == "" || ln[0] == '#' {
 			continue
@@ -1886,7 +1900,9 @@ func runReplay(c *hx.Ctx, path string) error {
 			}
 			line := c.Emit(q.opText(), emitted)
 			c.Case(q.opText(), true)
-			fmt.Fprintf(os.Stderr, "C09 replay: %s\n    -> %s\n", q.sql(), ans)
+			if verbose {
+				fmt.Fprintf(os.Stderr, "C09 replay: %s\n    -> %s\n", q.sql(), ans)
+			}
 			if got == nil || raw == nil {
 				c.Violation(line, "", "query failed: "+ans)
 				continue
@@ -1900,8 +1916,10 @@ func runReplay(c *hx.Ctx, path string) error {
 					c.Count("excluded:cross-generation-unhinted")
 					continue
 				}
-				fmt.Fprintf(os.Stderr, "    VIOLATION %s\n", msg)
-				c.Violation(line, classify(q), fmt.Sprintf("replay: %s -> %s; %s", q.sql(), ans, msg))
+				if verbose {
+					fmt.Fprintf(os.Stderr, "    VIOLATION %s\n", msg)
+				}
+				c.Violation(line, classify(q), fmt.Sprintf("directed case / replay: %s -> %s; %s; REPLAY (ogh C09 -replay <file with these lines>): %s", q.sql(), ans, msg, h.replayText(q)))
 			}
 		}
 	}
@@ -1972,6 +1990,10 @@ func runHistory(c *hx.Ctx, r *hx.Rng, idx int) error {
 	defer immutable.SetMergeFlag4TsStore(0)
 	c.Count(fmt.Sprintf("compaction-method=%d", method))
 	h.method = method
+	h.trend = r.Chance(20)
+	if h.trend {
+		c.Count("history:values-grow-with-time")
+	}
 	h.hiWater = make([]int, h.nSeries)
 	for i := range h.hiWater {
 		h.hiWater[i] = -1
@@ -2031,6 +2053,15 @@ func Run(c *hx.Ctx) error {
 	c.Stats.Rule = "random histories over 2-4 series (2 tag groupings) x 24-168 timestamps x 4 typed fields with nulls (int, float as multiples of 1/8, bool, string), rows-per-segment 8/16/24 (default 1000 for a few bulk histories in the thorough tier), compaction method auto/streaming/non-streaming: writes (advancing, late, rewrites of flushed keys), flush, level/full compaction, out-of-order merge; at 1-2 check points the layout is read back (chunks, segments, stored statistics per column: each stored record is compared with the statistics of the chunk's own rows) and 6-8 aggregate queries (count/sum/mean/min/max/first/last, 1-3 calls, range ends on/next to/inside segments, group by host/zone, time buckets with fill none/null, exact hint, descending, field filter; two statistics probes whose range is one stored chunk; mixes of first/last with calls on other columns) run through the single-node query path next to the corresponding plain selects; a case is non-trivial when the range cuts a stored segment or memtable and files both hold rows; distinct by history and query text"
 	if c.Replay != "" {
 		return runReplay(c, c.Replay)
+	}
+	// hand-picked boundary cases and minimised past failures first (corpus/C09 holds the same)
+	if c.Arg("nodirected", "") == "" && c.Arg("only", "") == "" {
+		for i, d := range directed {
+			if err := runScript(c, d, false); err != nil {
+				return fmt.Errorf("directed case %d: %w", i, err)
+			}
+			c.Count("directed-case")
+		}
 	}
 	n := c.Budget(40, 900)
 	// hx.NewRng(s+1) is hx.NewRng(s) advanced by one step: hash the seed first so that
